@@ -473,7 +473,10 @@ int __wrap_pthread_create(pthread_t *out, const pthread_attr_t *attr, void *(*fn
     G.th.push_back(t);
     int rc = __real_pthread_create(&t->real, attr, trampoline, t);
     if (rc != 0) {
-        t->st = DONE;
+        // the thread never existed (e.g. EINVAL for an impossible cpu affinity): forget the record
+        G.th.pop_back();
+        pthread_cond_destroy(&t->cv);
+        delete t;
         return rc;
     }
     *out = t->real;
